@@ -166,3 +166,29 @@ Proof. exact (@RtFloat.rt_float). Qed.
 End T_rt_float.
 Definition C07_rt_float := @T_rt_float.C07_rt_float.
 
+Module T_rt_double_bits. Import RtFloat. Local Open Scope bool_scope. Local Open Scope Z_scope.
+Import GFmt NumDecode NumSyntax GFmtSpec ILog. Local Open Scope Z_scope.
+Theorem C07_rt_double_bits :
+  forall bits rest,
+  0 <= bits < 2 ^ 64 -> (bits mod 2 ^ 63) / 2 ^ 52 < 2047 -> delim rest ->
+  let '(neg, n, d) := dec64 bits in 0 < n ->
+  let '(D, X) := sig_digits 15 n d in
+  exists N' D', 0 < D' /\ N' * valden (X - 14) = valnum D (X - 14) * D' /\
+    strtod_bits (bzl (fmt_double 15 bits) ++ rest) = bits64 neg (nearest64 N' D').
+Proof. exact (@RtFloat.rt_double_bits). Qed.
+End T_rt_double_bits.
+Definition C07_rt_double_bits := @T_rt_double_bits.C07_rt_double_bits.
+
+Module T_rt_float_bits. Import RtFloat. Local Open Scope bool_scope. Local Open Scope Z_scope.
+Import GFmt NumDecode NumSyntax GFmtSpec ILog. Local Open Scope Z_scope.
+Theorem C07_rt_float_bits :
+  forall bits rest,
+  0 <= bits < 2 ^ 32 -> (bits mod 2 ^ 31) / 2 ^ 23 < 255 -> delim rest ->
+  let '(neg, n, d) := dec32 bits in 0 < n ->
+  let '(D, X) := sig_digits 6 n d in
+  exists N' D', 0 < D' /\ N' * valden (X - 5) = valnum D (X - 5) * D' /\
+    strtof_bits (bzl (fmt_float 6 bits) ++ rest) = bits32 neg (nearest32 N' D').
+Proof. exact (@RtFloat.rt_float_bits). Qed.
+End T_rt_float_bits.
+Definition C07_rt_float_bits := @T_rt_float_bits.C07_rt_float_bits.
+
